@@ -64,6 +64,11 @@ def has(annos, a):
     for b in annos:
         if b is a or b == a:
             return True
+        # RegionAnnotation hashes by its fields but inherits identity equality; the hash-cons table keys an AST by the
+        # annotations' hashes, so rebuilding an annotated AST returns the cached object, which carries an earlier,
+        # field-for-field equal annotation object.  Same class and same fields is the same annotation.
+        if type(b) is type(a) and type(a).__eq__ is object.__eq__ and getattr(a, "__dict__", None) and vars(a) == vars(b):
+            return True
         if isinstance(a, RELTAG) and isinstance(b, RELTAG) and a.tag == b.tag and b.moved >= a.moved:
             return True
     return False
